@@ -1109,4 +1109,60 @@ theorem frontEnd_finv (opts : Opts) (fs : SrcFiles) (roots : List (List Char)) (
         exact this nodesR (defsR, [], [])
       exact ⟨rfl, FInv.symbols_congr hs ff, SlotsOK.symbols_congr hs sf⟩
 
+/-! ## what the resolver-side developments need, proved of the front end -/
+
+/-- **every symbol node of the front end's result has its slot, and no label a value** -/
+theorem frontEnd_nodesOK (opts : Opts) (fs : SrcFiles) (roots : List (List Char)) (st : Static) (nodes : List AstNode) (defs0 : Defs)
+    (h : frontEnd opts fs roots = .ok (st, nodes, defs0)) : NodesOK defs0 nodes := by
+  obtain ⟨_, ff, sf⟩ := frontEnd_finv opts fs roots st nodes defs0 h
+  intro n hn
+  have symOK : ∀ r, symRef n = some r → SymOK defs0 r := by
+    intro r hr
+    have := sf n hn r hr
+    cases hx : defs0.symbols.getD r none with
+    | none => rw [hx] at this; cases this
+    | some s => exact Or.inr ⟨s, hx⟩
+  unfold NodeOK
+  split
+  · rename_i r
+    refine ⟨symOK r rfl, fun x hx => ?_⟩
+    have hni := ff.ni _ hn
+    simp only [NI] at hni
+    rw [hni] at hx; cases hx
+  · rename_i r
+    exact symOK r rfl
+  · trivial
+
+/-- **the facts about constants that the simulation of the two settings uses hold of the front end's result** -/
+theorem frontEnd_frontOKS (opts : Opts) (fs : SrcFiles) (roots : List (List Char)) (st : Static) (nodes : List AstNode) (defs0 : Defs)
+    (h : frontEnd opts fs roots = .ok (st, nodes, defs0)) : FrontOKS st nodes defs0 (markedByBoth st defs0) := by
+  obtain ⟨hso, ff, sf⟩ := frontEnd_finv opts fs roots st nodes defs0 h
+  refine ⟨?_, ?_, ?_, ?_⟩
+  · intro l nm e ne r hm hk
+    have hni := ff.ni _ hm
+    simp only [NI] at hni
+    rw [← hni.1 (sf _ hm r rfl)]; exact hk
+  · intro l nm e ne l' nm' e' ne' r hm hm'
+    have := ff.fn _ hm' _ hm r rfl rfl
+    injection this with _ _ h3 _ _
+    injection h3
+  · intro r hr
+    unfold markedByBoth at hr
+    simp only [Bool.and_eq_true] at hr
+    exact hr.1
+  · intro l nm e ne r hm hres hh
+    have hni := ff.ni _ hm
+    simp only [NI] at hni
+    unfold markedByBoth at hh
+    rw [hres] at hh
+    simp only [Bool.true_and, Bool.not_eq_false', Bool.and_eq_true] at hh
+    obtain ⟨⟨hk, _⟩, hnd⟩ := hh
+    have hnd' : notDefined opts st.decls r = true := by
+      unfold notDefined
+      rw [← hso]; exact hnd
+    obtain ⟨hv, hp⟩ := hni.2 hres hk hnd'
+    have hpure : staticallyKnown pureP e = true := by rw [← hni.1 (sf _ hm r rfl)]; exact hk
+    obtain ⟨c, hc⟩ := evalSimple_pure st st.decls defs0 e hpure (defs0.sym r).value (hp st.decls defs0) hv
+    exact ⟨hk, (defs0.sym r).value, c, hc, rfl⟩
+
 end Casm
